@@ -398,9 +398,22 @@ func cfClosure(p **pkg, name string) func() ([]ast.Stmt, []*ast.FieldList, []ast
 	}
 }
 
+// cfClosureM: the function literal a method returns
+func cfClosureM(p **pkg, recv, name string) func() ([]ast.Stmt, []*ast.FieldList, []ast.Stmt) {
+	return func() ([]ast.Stmt, []*ast.FieldList, []ast.Stmt) {
+		if *p == nil {
+			cfFail(nil, "package not parsed")
+		}
+		d := cfDecl(*p, recv, name)
+		fl, pre := mwClosureOf(d)
+		return fl.Body.List, []*ast.FieldList{d.Recv, d.Type.Params, fl.Type.Params}, pre
+	}
+}
+
 func genChainFacts(repo string) string {
 	g := &cfGen{}
-	var router, recovery, timeout, app *pkg
+	var router, recovery, timeout, app, routep *pkg
+	g.guard("router/route", func() { routep = parseDir(filepath.Join(repo, "router", "route")) })
 	g.guard("router", func() { router = parseDir(filepath.Join(repo, "router")) })
 	g.guard("middleware/recovery", func() { recovery = parseDir(filepath.Join(repo, "middleware", "recovery")) })
 	g.guard("middleware/timeout", func() { timeout = parseDir(filepath.Join(repo, "middleware", "timeout")) })
@@ -424,6 +437,25 @@ func genChainFacts(repo string) string {
 	g.fn("app_defaultMiddleware", "`app.applyDefaultMiddleware`", []string{".Use(", "recovery."}, cfWhole(&app, "", "applyDefaultMiddleware"))
 	g.fn("app_new_middleware_order", "`app.New`: where the default middleware, the observability recorder and the `WithMiddleware` functions are installed",
 		[]string{"applyDefaultMiddleware", ".Use(", "router.New(", "router.MustNew(", "SetObservabilityRecorder"}, cfWhole(&app, "", "New"))
+
+	// composition glue (C02): in which order the handler slices are put together
+	comp := []string{"append(", "make(", "copy("}
+	g.fn("app_registerRoute", "`(*App).registerRoute`: before, handler, after", comp, cfWhole(&app, "App", "registerRoute"))
+	g.fn("app_wrapHandler", "the closure `(*App).wrapHandler` returns", []string{"defer", "›(‹", "return"}, cfClosureM(&app, "App", "wrapHandler"))
+	g.fn("app_group_addRoute", "`(*app.Group).addRoute`: group middleware, before, handler, after", comp, cfWhole(&app, "Group", "addRoute"))
+	g.fn("app_group_Group", "`(*app.Group).Group`", comp, cfWhole(&app, "Group", "Group"))
+	g.fn("app_group_Use", "`(*app.Group).Use`", comp, cfWhole(&app, "Group", "Use"))
+	g.fn("app_App_Group", "`(*App).Group`", comp, cfWhole(&app, "App", "Group"))
+	g.fn("app_vgroup_addRoute", "`(*app.VersionGroup).addRoute`", comp, cfWhole(&app, "VersionGroup", "addRoute"))
+	g.fn("route_RegisterRoute", "`(*route.Route).RegisterRoute`: global middleware, then the route's handlers", append(comp, "GetGlobalMiddleware"), cfWhole(&routep, "Route", "RegisterRoute"))
+	g.fn("route_group_addRoute", "`(*route.Group).addRoute`", comp, cfWhole(&routep, "Group", "addRoute"))
+	g.fn("route_group_Group", "`(*route.Group).Group`", comp, cfWhole(&routep, "Group", "Group"))
+	g.fn("route_group_Use", "`(*route.Group).Use`", comp, cfWhole(&routep, "Group", "Use"))
+	g.fn("router_Use", "`(*Router).Use`", comp, cfWhole(&router, "Router", "Use"))
+	g.fn("router_Mount", "`(*Router).Mount`: inherited parent middleware, sub-router middleware, extras", append(comp, "InheritMiddleware", "mergeSubrouterRoutes"), cfWhole(&router, "Router", "Mount"))
+	g.fn("router_mountRoute", "`(*Router).mountRoute`: mount chain, then the route's handlers", append(comp, "addRouteInternal"), cfWhole(&router, "Router", "mountRoute"))
+	g.fn("router_extractAndMount", "`(*Router).extractAndMountFromNode` (mount of a warmed-up sub-router: finding K02b lives here)", append(comp, "addRouteInternal", ".handlers"), cfWhole(&router, "Router", "extractAndMountFromNode"))
+	g.fn("router_vgroup_Handle", "`(*VersionGroup).Handle`", comp, cfWhole(&router, "VersionGroup", "Handle"))
 
 	var out strings.Builder
 	out.WriteString("/- GENERATED by extract/chainfacts.go from router/context.go, middleware/recovery, middleware/timeout, app/app.go of the\n   current working tree — do not edit, not committed. Flat token lists; locals are _1, _2, … in order of first occurrence. -/\nnamespace Rivaas.Gen.ChainFacts\n\n")
